@@ -1022,6 +1022,7 @@ udp_pipe_send(void *arg, nni_aio *aio)
 	dreq.us_type    = ep->proto;
 	dreq.us_op_code = OPCODE_DATA;
 	dreq.us_length  = (uint16_t) count;
+	dreq.us_params[1] = 0;
 
 	// Just queue it, or fail it.
 	udp_queue_tx(ep, &p->peer_addr, (void *) &dreq, msg);
